@@ -52,7 +52,7 @@ def signature(case, ck, log, fault):
 
 
 def plan(tier, seed):
-    shards = F.std_plan(tier, seed, 1200, 30000)
+    shards = F.std_plan(tier, seed, 4800, 50000)
     shards.append({"chain": True, "tier": tier, "seed": seed})
     return shards
 
